@@ -325,7 +325,10 @@ def run(chk: Check, replay=None):
         if v is None:
             raise MachineryFailure(f"no verdict for record {i}")
         if v["fail"]:
-            chk.violation(key_of(rec["engine"], rec["kind"], v["fail"]),
+            key = key_of(rec["engine"], rec["kind"], v["fail"])
+            if rec["w"] == 64 and v["spec"].get("topop"):
+                key = {"engine_family": key["engine_family"], "w": 64, "input_class": "w64-op-on-last-word-of-address-space"}
+            chk.violation(key,
                           f"engine {rec['engine']} (w={rec['w']}), device raising {rec['kind']} at call {rec['faultAt']}: rejected by Trace_FJFaults, clauses {v['fail']}; spec says {v['spec']}",
                           {"record": rec, "verdict": v})
     # self-test
